@@ -152,6 +152,11 @@ def run(ctx):
                    'frame is filled once', fi, False, {'data_updates': [e.text() for e in ds], 'returned_frame_fills': [e.text() for e in sf]},
                    node=fi.node, construct='self.data[:, lo:hi] += signal')
             continue
+        # the update is not skipped for some signals: whenever the call returns, the addition has been made (an early `return zeros`
+        # for a signal centred outside the range would drop the wings of its profile that reach into the range)
+        reach_ = T.mk_or([c_ for c_, _ in r.returns] + ([r.live] if r.live.key != FALSE.key else []))
+        ctx.formula('AGREE', f'[{tag}] every call that returns has made the addition (no early exit that depends on where the signal '
+                    'lies)', fi, ds[0].cond(), reach_, node=ds[0].node, construct=ds[0].text() + ' [reached whenever the call returns]')
         ctx.ob('AGREE', f'[{tag}] the data update is an in-place addition (injections superpose)', fi, ds[0].data.get('aug') == 'Add',
                {'statement': ds[0].text()}, node=ds[0].node)
         ctx.formula('AGREE', f'[{tag}] the columns added to the data are the columns filled in the returned frame', fi,
